@@ -827,7 +827,9 @@ fn check_reduction(red: Red, a: &[f64], b: &[f64], rows: usize, got: f64) -> Res
             let (s, _) = dd_dot(&terms, None);
             let mean = matches!(red, Red::LogMeanExp | Red::LogMeanExpM);
             let r = m + if mean { (s / n).ln() } else { s.ln() };
-            let tol = 4.0 * (n + 4.0) * U * (1.0 + r.abs());
+            // errors: one rounding per shifted argument (weighted by |d| e^d <= 1/e), one per exp, (n-1) u
+            // for the sum in any order, one for ln, one for the final addition: below 1.5 (n + 4) u (1 + |r|)
+            let tol = 2.0 * (n + 4.0) * U * (1.0 + r.abs());
             if !got.is_finite() {
                 return Err(format!("log-domain reduction of finite inputs (max {:e}, n {}) is {:e}; definition {:e}", m, a.len(), got, r));
             }
@@ -874,6 +876,17 @@ fn gen_val(r: &mut Sm, special: bool) -> f64 {
     }
 }
 
+/// a scalar operand: as gen_val, plus powers of two at the ends of the exponent range (exact
+/// reciprocals exist for all of them except 2^1023 and the subnormal ones)
+fn gen_scalar(r: &mut Sm, special: bool) -> f64 {
+    if special && r.chance(0.06) {
+        let e = *r.pick(&[1023i32, 1022, -1022, -1023, -1074, 512, -512]);
+        let v = if e >= -1022 { f64::from_bits(((e + 1023) as u64) << 52) } else { f64::from_bits(1u64 << (e + 1074)) };
+        return if r.chance(0.5) { v } else { -v };
+    }
+    gen_val(r, special)
+}
+
 fn gen_vec(r: &mut Sm, n: usize, kind: u8) -> Vec<f64> {
     match kind {
         // log-domain: large magnitude, clustered
@@ -907,6 +920,11 @@ fn gen_vec(r: &mut Sm, n: usize, kind: u8) -> Vec<f64> {
                 }
             }
             v
+        }
+        // uniformly tiny or huge magnitudes (every entry far below any absolute tolerance / far above 1)
+        4 => {
+            let sc = *r.pick(&[1e-17, 3e-16, 1e-30, 1e-150, 1e20, 1e150]);
+            (0..n).map(|_| gen_val(r, false) * sc).collect()
         }
         // product-friendly
         3 => (0..n).map(|_| (0.25 + r.f64() * 3.75) * if r.chance(0.3) { -1.0 } else { 1.0 }).collect(),
@@ -980,7 +998,7 @@ impl Prop for C04 {
         let special = r.chance(0.4);
         let nsteps = if n > 10_000 { 1 + r.below(2) as usize } else if n > 2000 { 1 + r.below(3) as usize } else { 1 + r.below(12) as usize };
         let focus = r.below(4); // 0: anything, 1: arithmetic, 2: maps, 3: reductions
-        let kind = if focus == 3 { *r.pick(&[0u8, 2, 2, 3]) } else if special { 1 } else { 0 };
+        let kind = if focus == 3 { *r.pick(&[0u8, 2, 2, 3, 4]) } else if special { 1 } else if r.chance(0.05) { 4 } else { 0 };
         let init: Vec<Vec<Fb>> = (0..3).map(|_| fbs(&gen_vec(&mut r, n, kind))).collect();
         let rows = pick_rows(&mut r, n);
         let mut steps = vec![];
@@ -998,7 +1016,15 @@ impl Prop for C04 {
                 }
             };
             let sub = if n >= 2 && r.chance(0.3) { 1 + r.below(n as u64 - 1) as usize } else { 0 };
-            steps.push(StepE { form, a: r.below(3) as usize, b: r.below(3) as usize, s: Fb(gen_val(&mut r, special)), alt: r.below(64) as usize, sub });
+            let step = StepE { form, a: r.below(3) as usize, b: r.below(3) as usize, s: Fb(gen_scalar(&mut r, special)), alt: r.below(64) as usize, sub };
+            let again = matches!(form, Form::VMap(..) | Form::MMap(..) | Form::VPowi(..) | Form::MPowi(..) | Form::VPowf(..) | Form::MPowf(..) | Form::Reduce(..)) && r.chance(0.2);
+            steps.push(step.clone());
+            if again {
+                // the same call once more, on the same values in reversed order
+                let mut t = step;
+                t.alt ^= 32;
+                steps.push(t);
+            }
         }
         let mut fills: Vec<Fill> = vec![*r.pick(&Fill::ALL)];
         loop {
@@ -1046,6 +1072,13 @@ impl Prop for C04 {
                 a.truncate(stp.sub);
                 b.truncate(stp.sub);
                 st.inc("sub_length_ops");
+            }
+            // unary forms may read their operand in reversed order (bit 5 of alt): the same values in another
+            // arrangement, right after the same call on the original arrangement
+            let unary = matches!(f, Form::VMap(..) | Form::MMap(..) | Form::VPowi(..) | Form::MPowi(..) | Form::VPowf(..) | Form::MPowf(..) | Form::Reduce(..));
+            if unary && (stp.alt / 32) % 2 == 1 && !case.grid {
+                a.reverse();
+                st.inc("reversed_operand");
             }
             let alias = stp.a % 3 == stp.b % 3 && stp.alt % 2 == 0 && matches!(f, Form::VV(_, Own::RR) | Form::MM(_, Own::RR));
             if alias {
